@@ -210,7 +210,7 @@ func RunRepoTests(c *core.Ctx, pkgs ...string) ([][]Event, error) {
 	}
 	args := append([]string{"test", "-tags", "verif", "-vet=off", "-count=1"}, pkgs...)
 	cmd := exec.Command("go", args...)
-	cmd.Dir = "/repo"
+	cmd.Dir = core.RepoDir()
 	cmd.Env = append(os.Environ(), "CEDAR_VERIF_TRACE_DIR="+dir, "GOFLAGS=-mod=mod", "GOPROXY=off")
 	if out, err := cmd.CombinedOutput(); err != nil {
 		c.Note("repository tests with hooks on did not all pass: " + kit.FirstLines(string(out), 8))
